@@ -50,7 +50,20 @@ TVerdict ==
   LET j == TracesS[ti].steps[l']
       o == OutOfS(j.out)
   IN [ti |-> ti, l |-> l', tag |-> TracesS[ti].tag,
-      C09 |-> C09Walk(o, 1, [ep |-> epv, doneEp |-> dep, cur |-> ""], {}),
+      C09 |-> C09Walk(o, 1, [ep |-> epv, doneEp |-> dep, cur |-> ""], {})
+              \cup (IF "svcs" \in DOMAIN j THEN
+                      Tag(\A x \in 1..Len(j.svcs) : j.svcs[x][1] \in ToSetS(j.config) /\ j.status # "stopped",
+                          "service_alive_after_exit_or_stop")
+                    ELSE {})
+              \cup Tag(\A s \in D.states : \A x \in 1..Len(D.invokes[s]) :
+                        Cardinality({i \in 1..Len(o) : o[i].k = "invoke" /\ o[i].a = s /\ o[i].b = D.invokes[s][x].id})
+                        = Cardinality({i \in 1..Len(o) : o[i].k = "sched" /\ o[i].a = s}),
+                      "not_started_exactly_once_per_entry"),
+      C14 |-> (IF stopped \/ j.op = "stop" THEN
+                 Tag(("svcs" \in DOMAIN j => j.svcs = <<>>) /\ ("timers" \in DOMAIN j => j.timers = <<>>), "stop_releases_everything")
+                 \cup (IF stopped THEN Tag(\A i \in 1..Len(o) : o[i].k \notin {"on_transition", "act", "event", "sched", "arm", "invoke"},
+                                           "activity_after_stop") ELSE {})
+               ELSE {}),
       C08 |-> C08Walk(o, 1, j.t, [entered |-> ent, sel |-> ent, fired |-> {}], {})
               \cup (IF stopped THEN Tag(\A i \in 1..Len(o) : o[i].k \notin {"on_transition", "act", "event"}, "activity_after_stop")
                     ELSE {})]
